@@ -591,7 +591,8 @@ def check_C16(world, hist, pred):
     if hist.get("escaped"):
         return out
     cfg = world["cfg"]
-    show_skipped = bool(cfg.get("show_skipped"))
+    show_skipped = bool(cfg.get("show_skipped")) or \
+        cfg["userdata"].get("behave.reporter.junit.show_skipped_always") == "true"
     files = {k: v for k, v in hist["artifacts"].items() if k.startswith("reports/")}
     seen_features = set()
     for fname, text in sorted(files.items()):
